@@ -1211,20 +1211,30 @@ func c05sStateVectors(ndev int) [][]int {
 
 // c05sFillPacked generates the block population of the packed family: every state vector x every
 // combo x nh hashes with different rendezvous orders.
-func c05sFillPacked(c *c05sCase) {
-	combos := c05sCombosQuick
-	nh := 2
-	if c.Packed.Thorough {
-		combos = c05sCombosThorough()
-		nh = 6
-		if len(c.Layout.Devs) >= 5 {
-			nh = 2
-		}
+func c05sPackedParams(thorough bool, ndev int) (combos [][]c05sSpec, nh int) {
+	if !thorough {
+		return c05sCombosQuick, 2
 	}
+	nh = 6 // every rendezvous order of three services
+	if ndev >= 4 {
+		nh = 3
+	}
+	if ndev >= 5 {
+		nh = 2
+	}
+	return c05sCombosThorough(), nh
+}
+
+func c05sFillPacked(c *c05sCase) {
+	combos, nh := c05sPackedParams(c.Packed.Thorough, len(c.Layout.Devs))
 	c.Blocks = nil
 	c.Colls = nil
 	c05sPool.reset()
 	vecs := c05sStateVectors(len(c.Layout.Devs))
+	// one collection record per distinct (replication_desired, storage_classes_desired): it
+	// references the blocks of every combo the record belongs to (each record costs the sweep a
+	// 1 MiB scanner buffer in Collection.SizedDigests)
+	recOf := map[c05sSpec]int{}
 	for _, specs := range combos {
 		first := len(c.Blocks)
 		for _, vec := range vecs {
@@ -1232,12 +1242,16 @@ func c05sFillPacked(c *c05sCase) {
 				c.Blocks = append(c.Blocks, c05sBlock{Hash: c05sPool.take(j), State: vec})
 			}
 		}
-		refs := make([]int, 0, len(c.Blocks)-first)
-		for bi := first; bi < len(c.Blocks); bi++ {
-			refs = append(refs, bi)
-		}
 		for _, sp := range specs {
-			c.Colls = append(c.Colls, c05sColl{Repl: sp.Repl, Classes: sp.Classes, Blocks: refs})
+			ci, ok := recOf[sp]
+			if !ok {
+				ci = len(c.Colls)
+				recOf[sp] = ci
+				c.Colls = append(c.Colls, c05sColl{Repl: sp.Repl, Classes: sp.Classes})
+			}
+			for bi := first; bi < len(c.Blocks); bi++ {
+				c.Colls[ci].Blocks = append(c.Colls[ci].Blocks, bi)
+			}
 		}
 	}
 }
@@ -1643,6 +1657,8 @@ func (k *c05sChecker) report(c *c05sCase, w *c05sWorld, o *c05sObs, v *c05sVerdi
 	}
 }
 
+var c05sShapeDone func(nsrv, nm, mask, k int)
+
 func TestVerifC05Sweep(t *testing.T) {
 	r := vrep.New("C05", "sweep")
 	defer r.Write()
@@ -1677,19 +1693,19 @@ func TestVerifC05Sweep(t *testing.T) {
 	}
 	smallBound := [4][7]int{
 		1: {1: 1, 2: 0},
-		2: {2: 2, 3: 1, 4: -1},
-		3: {3: 1, 4: -1, 5: -1, 6: -1},
+		2: {2: 2, 3: 0, 4: -1},
+		3: {3: 0, 4: -1, 5: -1, 6: -1},
 	}
 	if thorough {
 		packedBound = [4][7]int{
 			1: {1: 9, 2: 9},
-			2: {2: 9, 3: 5, 4: 4},
-			3: {3: 5, 4: 3, 5: 2, 6: 2},
+			2: {2: 9, 3: 5, 4: 3},
+			3: {3: 4, 4: 3, 5: 2, 6: 1},
 		}
 		smallBound = [4][7]int{
-			1: {1: 3, 2: 2},
-			2: {2: 9, 3: 2, 4: 1},
-			3: {3: 2, 4: 1, 5: -1, 6: -1},
+			1: {1: 3, 2: 1},
+			2: {2: 4, 3: 1, 4: 0},
+			3: {3: 1, 4: -1, 5: -1, 6: -1},
 		}
 	}
 	if s := os.Getenv("VERIF_C05S_BOUND"); s != "" { // packed bound per total mounts 1..6, e.g. "9,9,3,2,1,0"
@@ -1703,6 +1719,17 @@ func TestVerifC05Sweep(t *testing.T) {
 		}
 	}
 	noSmall := os.Getenv("VERIF_C05S_NOSMALL") != ""
+	countOnly := os.Getenv("VERIF_C05S_COUNT") != "" // print the number of runs per shape, run nothing
+	var nPacked, nSmall, lastPacked, lastSmall, nBlocksEst, lastBlocks int64
+	curDevs := 0
+	if countOnly {
+		g0 := func(nsrv, nm, mask, kk int) {
+			fmt.Fprintf(os.Stderr, "shape services=%d mounts=%d mask=%d: packed runs=%d (blocks %d) small runs=%d\n", nsrv, nm, mask, nPacked-lastPacked, nBlocksEst-lastBlocks, nSmall-lastSmall)
+			lastPacked, lastSmall, lastBlocks = nPacked, nSmall, nBlocksEst
+		}
+		defer func() { fmt.Fprintf(os.Stderr, "total packed=%d (blocks %d) small=%d\n", nPacked, nBlocksEst, nSmall) }()
+		c05sShapeDone = g0
+	}
 	r.Extra("sweep_packed_deviation_bound_by_services_1_to_3_and_mounts_0_to_6", fmt.Sprint(packedBound[1:]))
 	r.Extra("sweep_small_deviation_bound_by_services_1_to_3_and_mounts_0_to_6", fmt.Sprint(smallBound[1:]))
 	smallSets := c05sSmallCollSets(thorough)
@@ -1726,8 +1753,22 @@ func TestVerifC05Sweep(t *testing.T) {
 		}
 		return b
 	}
-	mine := func() bool {
+	mine := func(packed bool) bool {
 		idx++
+		if countOnly {
+			if packed {
+				nPacked++
+				combos, nh := c05sPackedParams(thorough, curDevs)
+				nb := len(combos) * nh
+				for i := 0; i < curDevs; i++ {
+					nb *= 3
+				}
+				nBlocksEst += int64(nb)
+			} else {
+				nSmall++
+			}
+			return false
+		}
 		if !vrep.Mine(idx) {
 			return false
 		}
@@ -1753,19 +1794,20 @@ func TestVerifC05Sweep(t *testing.T) {
 		}
 		nsrv, nm := len(l.Mounts), l.nMounts()
 		dev := l.deviations()
+		curDevs = len(l.Devs)
 		if vrep.Mine(0) {
 			layouts++
 		}
 		if dev <= packedBound[nsrv][nm] {
 			// the lost-blocks file in three of four runs, the statistics counter in the fourth
-			if mine() {
+			if mine(true) {
 				c := &c05sCase{Layout: l.clone(), LostFile: idx%4 != 0, Packed: &c05sPacked{Thorough: thorough}}
 				k.check(c, "packed")
 				r.AddExtra("sweep_packed_runs", 1)
 			}
 			// the same with one (colliding) timestamp for all devices counts as one more deviation
 			if dev+1 <= packedBound[nsrv][nm] && len(l.Devs) > 1 {
-				if mine() {
+				if mine(true) {
 					c := &c05sCase{Layout: l.clone(), Collide: true, LostFile: idx%4 != 0, Packed: &c05sPacked{Thorough: thorough}}
 					k.check(c, "packed")
 					r.AddExtra("sweep_packed_runs", 1)
@@ -1785,7 +1827,7 @@ func TestVerifC05Sweep(t *testing.T) {
 						if anchor == 1 && !zero {
 							continue
 						}
-						if mine() {
+						if mine(false) {
 							k.check(c05sSmallCase(l, vec, specs, nhSmall, anchor == 1, false, idx%4 != 0), "small")
 							r.AddExtra("sweep_small_runs", 1)
 						}
@@ -1794,6 +1836,7 @@ func TestVerifC05Sweep(t *testing.T) {
 			}
 		}
 	}
+	g.shapeDone = c05sShapeDone
 	g.all()
 	r.AddExtra("sweep_layouts", layouts)
 	if k.nRuns == 0 {
